@@ -8,6 +8,6 @@ MC_AttrTypes == [A |-> [Id |-> "unique_id", N |-> "integer", S |-> "string", F |
                  M |-> [One_Id |-> "unique_id", Other_Id |-> "unique_id", W |-> "integer"]]
 MC_ParamTypes == [x |-> "integer", flag |-> "boolean", s |-> "string", cnt |-> "Count"]
 MC_RetTypes == ("fact" :> "integer" @@ "tally" :> "Count" @@ "mix" :> "integer" @@ "A::cop" :> "integer" @@ "EE1::br" :> "integer" @@ "A.iop" :> "integer")
-MC_ConstTypes == ("LIMIT" :> "integer" @@ "GREETING" :> "string" @@ "ENABLED" :> "boolean")
+MC_ConstTypes == ("LIMIT" :> "integer" @@ "GREETING" :> "string" @@ "ENABLED" :> "boolean" @@ "FLOOR" :> "integer")
 MC_NavTarget == <<>>
 ====
